@@ -1,0 +1,34 @@
+// SPDX-FileCopyrightText: 2022 Kalle Fagerberg
+//
+// SPDX-License-Identifier: MIT
+
+//go:build verif
+
+package sync2
+
+// VerifHook, when non-nil, is called immediately before every atomic
+// operation, mutex operation and map-iteration step of Map, KeyedMutex and
+// KeyedRWMutex. It exists only in builds with the "verif" tag and lets a
+// verification harness observe and schedule these steps.
+//
+// label names the step, key is the map key of an iteration step (nil
+// otherwise) and obj is the mutex a lock step is about (nil otherwise).
+var VerifHook func(label string, key any, obj any)
+
+func verifYield(label string) {
+	if h := VerifHook; h != nil {
+		h(label, nil, nil)
+	}
+}
+
+func verifYieldKey(label string, key any) {
+	if h := VerifHook; h != nil {
+		h(label, key, nil)
+	}
+}
+
+func verifYieldObj(label string, obj any) {
+	if h := VerifHook; h != nil {
+		h(label, nil, obj)
+	}
+}
